@@ -596,54 +596,96 @@ func checkC08(c *Ctx, r *Report, tier string) {
 						}
 					}
 				}
-				// … or on the verdict of a predicate helper that bounds the length of the same value
+				// … or on the verdict of a predicate / validating helper that bounds the length of the same value: the helper is
+				// handed the value (or its length) and compares it with a constant, itself or one or two helpers further down;
+				// the verdict may be a bool or an error
+				limit := int64(255)
+				if b.Kind() == types.Uint16 {
+					limit = 65535
+				}
+				var boundIn func(g *ssa.Function, pi int, isLen bool, d int)
+				boundIn = func(g *ssa.Function, pi int, isLen bool, d int) {
+					if g == nil || !modLocal(g) || len(g.Blocks) == 0 || d > 3 || pi >= len(g.Params) {
+						return
+					}
+					p := ssa.Value(g.Params[pi])
+					eachInstr(g, func(j ssa.Instruction) {
+						if bo, isB := j.(*ssa.BinOp); isB {
+							for si, side := range []ssa.Value{bo.X, bo.Y} {
+								hit := false
+								if lc, ok := side.(*ssa.Call); ok && !isLen && callID(&lc.Call).is("builtin", "", "len") && lc.Call.Args[0] == p {
+									hit = true
+								}
+								if isLen && strip(side) == p {
+									hit = true
+								}
+								if !hit {
+									continue
+								}
+								other := bo.Y
+								if si == 1 {
+									other = bo.X
+								}
+								cst, isK := constInt(other)
+								if !isK {
+									continue
+								}
+								guard = true
+								// `len <= C` / `len > C` bound by C, `len < C` / `len >= C` by C-1, whichever way the verdict is used
+								eff := cst
+								if bo.Op == token.LSS || bo.Op == token.GEQ {
+									if si == 0 {
+										eff = cst - 1
+									}
+								} else if si == 1 && (bo.Op == token.GTR || bo.Op == token.LEQ) {
+									eff = cst - 1
+								}
+								if eff > limit {
+									wideBound = fmt.Sprintf("the predicate %s lets a length of %d through, %s holds at most %d", g.Name(), eff, b.Name(), limit)
+								}
+							}
+						}
+						if cc := asCall(j); cc != nil && cc.StaticCallee() != nil && cc.StaticCallee() != g {
+							for ai, a := range cc.Args {
+								if strip(a) == p {
+									boundIn(cc.StaticCallee(), ai, isLen, d+1)
+								}
+								if lc, ok := strip(a).(*ssa.Call); ok && !isLen && callID(&lc.Call).is("builtin", "", "len") && lc.Call.Args[0] == p {
+									boundIn(cc.StaticCallee(), ai, true, d+1)
+								}
+							}
+						}
+					})
+				}
 				for _, ifi := range allIfs(f) {
 					if !(guardedBy(cv.Block(), ifi, true) || guardedBy(cv.Block(), ifi, false)) {
 						continue
 					}
+					var helpers []*ssa.Call
 					for _, l := range condLeaves(ifi.Cond, 0) {
-						hc, isC := l.(*ssa.Call)
-						if !isC || hc.Call.StaticCallee() == nil || !modLocal(hc.Call.StaticCallee()) {
+						if hc, isC := l.(*ssa.Call); isC {
+							helpers = append(helpers, hc)
+						}
+					}
+					// `if err := validate(k, v); err != nil`
+					if bo, isB := ifi.Cond.(*ssa.BinOp); isB && (isNilConst(bo.X) || isNilConst(bo.Y)) {
+						for _, sd := range []ssa.Value{bo.X, bo.Y} {
+							if hc, isC := strip(sd).(*ssa.Call); isC {
+								helpers = append(helpers, hc)
+							}
+						}
+					}
+					for _, hc := range helpers {
+						if hc.Call.StaticCallee() == nil || !modLocal(hc.Call.StaticCallee()) {
 							continue
 						}
-						g := hc.Call.StaticCallee()
 						for ai, a := range hc.Call.Args {
-							if a != src.Call.Args[0] || ai >= len(g.Params) {
-								continue
+							if a == src.Call.Args[0] {
+								boundIn(hc.Call.StaticCallee(), ai, false, 0)
 							}
-							eachInstr(g, func(j ssa.Instruction) {
-								bo, isB := j.(*ssa.BinOp)
-								if !isB {
-									return
-								}
-								for si, side := range []ssa.Value{bo.X, bo.Y} {
-									if lc, ok := side.(*ssa.Call); ok && callID(&lc.Call).is("builtin", "", "len") && lc.Call.Args[0] == ssa.Value(g.Params[ai]) {
-										guard = true
-										other := bo.Y
-										if si == 1 {
-											other = bo.X
-										}
-										if cst, isK := constInt(other); isK {
-											limit := int64(255)
-											if b.Kind() == types.Uint16 {
-												limit = 65535
-											}
-											// `len <= C` / `len > C` bound by C, `len < C` / `len >= C` by C-1, whichever way the verdict is used
-											eff := cst
-											if bo.Op == token.LSS || bo.Op == token.GEQ {
-												if si == 0 {
-													eff = cst - 1
-												}
-											} else if si == 1 && (bo.Op == token.GTR || bo.Op == token.LEQ) {
-												eff = cst - 1
-											}
-											if eff > limit {
-												wideBound = fmt.Sprintf("the predicate %s lets a length of %d through, %s holds at most %d", g.Name(), eff, b.Name(), limit)
-											}
-										}
-									}
-								}
-							})
+							if lc, ok := strip(a).(*ssa.Call); ok && callID(&lc.Call).is("builtin", "", "len") && lc.Call.Args[0] == src.Call.Args[0] {
+								boundIn(hc.Call.StaticCallee(), ai, true, 0)
+							}
 						}
 					}
 				}
@@ -711,7 +753,7 @@ func checkC08(c *Ctx, r *Report, tier string) {
 	restoreResetsBeforeSuccess(c, r, "C08.R5")
 	restoreCallbackDelegates(c, r, "C08.R5", "partition", "Hnsw")
 	r.Rule("C08.R6", "what is saved can be loaded and what is accepted can be saved: the entry point (saved by id) is always a live, stored vertex — the hand-over on removal skips tombstoned neighbours; the metadata validator bounds byte lengths, the quantity the writer narrows", 3)
-	borrow(c, r, "C01", "C01.R1", "C08.R6", "Remove")
+	borrow(c, r, "C01", "C01.R1", "C08.R6", "")
 	borrow(c, r, "C01", "C01.R2", "C08.R6", "")
 	validatorMeasuresBytes(c, r, "C08.R6")
 	r.Rule("C08.R7", "the bytes of a snapshot stay what they were when it was taken, and only states the format can express are reachable: snapshot bytes come from a buffer local to the call; every item of a value-carrying batch passes the dimension and metadata guard (borrowed from C11.R4)", 3)
